@@ -108,6 +108,7 @@ class Concretiser:
         self.types = {}  # id -> shape
         self.inexact = False
         self.blank = set()
+        self.relevant_kids = None  # class ids the obligation actually talks about (isa facts of others are noise)
 
     def ev(self, t):
         return self.m.eval(t, model_completion=True)
@@ -139,6 +140,40 @@ class Concretiser:
         if d == "refv":
             return self.obj(v.arg(0).as_long(), ty)
         raise NotConcretisable("value %s" % v)
+
+    def exception(self, oid):
+        """an exception instance whose class realises the model's subclass facts"""
+        from .engine import isa as isa_fn
+
+        reg = self.E.classes
+        cid = z3.simplify(self.ev(self.field(oid, "$cls")))
+        if z3.is_int_value(cid) and cid.as_long() in reg.by_id:
+            k = reg.by_id[cid.as_long()]
+            nat = k.native() if isinstance(k, ER) else getattr(importlib.import_module(k.module.name), k.name)
+            try:
+                return nat()
+            except TypeError:
+                return nat("x", "y")
+        true_classes = []
+        for kid, k in reg.by_id.items():
+            if self.relevant_kids is not None and kid not in self.relevant_kids:
+                continue
+            if isinstance(k, str) or not isinstance(k, ER):
+                continue
+            try:
+                nat = k.native()
+            except Exception:
+                continue
+            if not (isinstance(nat, type) and issubclass(nat, BaseException)):
+                continue
+            if z3.is_true(z3.simplify(self.ev(isa_fn(cid, z3.IntVal(kid))))):
+                true_classes.append(nat)
+        minimal = [a for a in true_classes if not any(b is not a and issubclass(b, a) for b in true_classes)] or [BaseException]
+        try:
+            cls = type("SymbolicFailure", tuple(minimal), {})
+        except TypeError:
+            cls = minimal[0]
+        return cls("symbolic failure")
 
     def field(self, oid, name):
         arr = self.heap.get(name)
@@ -172,6 +207,17 @@ class Concretiser:
             if oid not in self.blank:
                 for fname, fty in ty.fields.items():
                     object.__setattr__(o, fname, self.value(self.field(oid, fname), fty))
+            return o
+        if isinstance(ty, TExc):
+            o = self.exception(oid)
+            self.objs[oid] = o
+            self.types[oid] = ty
+            return o
+        if isinstance(ty, TAbs) and getattr(ty, "real", None) is not None:
+            vals = {fname: self.value(self.field(oid, fname), fty) for fname, fty in ty.fields.items()}
+            o = ty.real(vals)
+            self.objs[oid] = o
+            self.types[oid] = ty
             return o
         if isinstance(ty, TAbs):
             o = stub_class(ty)()
@@ -255,12 +301,30 @@ def _event_terms(spec, hb, log):
     return out
 
 
-def run_and_check(E, con, fi, bound, model, heap0, want=None):
+def isa_kids(formulas):
+    """class ids that occur as second argument of isa(...) in the given formulas"""
+    out, seen, todo = set(), set(), list(formulas)
+    while todo:
+        e = todo.pop()
+        if e.get_id() in seen:
+            continue
+        seen.add(e.get_id())
+        if z3.is_app(e) and e.decl().name() == "isa" and z3.is_int_value(e.arg(1)):
+            out.add(e.arg(1).as_long())
+        if z3.is_quantifier(e):
+            todo.append(e.body())
+        else:
+            todo.extend(e.children())
+    return out
+
+
+def run_and_check(E, con, fi, bound, model, heap0, want=None, relevant_kids=None):
     """concretise the model's inputs, run the real function, evaluate the contract's clauses on the real outcome.
     returns info dict with 'violated': list of violated clause labels (or ['raises'])"""
     global LOG
     ctx = Ctx(E, [], "replay-eval")
     conc = Concretiser(E, model, heap0)
+    conc.relevant_kids = relevant_kids
     if con.new_object:
         sv = bound[con.new_object]
         conc.blank.add(z3.simplify(model.eval(Z.Val.id(sv.t), model_completion=True)).as_long())
